@@ -33,6 +33,27 @@ def err(e):
     return {'err': type(e).__name__, 'msg': str(e)[:120]}
 
 
+def unwrap_rows(f, c, arr, n):
+    if f == 'unobj':
+        u = unwrap_objid(arr)
+        return [[int(u[k][j]) for k in ('skyversion', 'rerun', 'run', 'camcol', 'firstfield', 'frame', 'id')]
+                for j in range(n)]
+    ui = unwrap_specobjid(arr, run2d_integer=True, specLineIndex=bool(c.get('index')))
+    us = unwrap_specobjid(arr, run2d_integer=False)
+    rows = []
+    for j in range(n):
+        m = re.fullmatch(r'v(-?\d+)_(-?\d+)_(-?\d+)', str(us.run2d[j]))
+        nmp = [int(g) for g in m.groups()] if m else [-999, -999, -999]
+        lk = 'index' if c.get('index') else 'line'
+        row_i = [int(ui.plate[j]), int(ui.fiber[j]), int(ui.mjd[j]), int(ui.run2d[j])] + nmp + [int(ui[lk][j])]
+        same = (int(us.plate[j]), int(us.fiber[j]), int(us.mjd[j]), int(us.line[j])) == \
+            (row_i[0], row_i[1], row_i[2], row_i[7])
+        if not same:
+            row_i.append(-1)  # string and integer modes disagree -> guaranteed mismatch
+        rows.append(row_i)
+    return rows
+
+
 def call(c):
     f = c['f']
     try:
@@ -78,29 +99,30 @@ def call(c):
             except Exception as e2:  # noqa: BLE001
                 out['repeat_differs'] = type(e2).__name__
             return out
-        if f == 'unobj':
+        if f in ('unobj', 'unspec'):
             ids = c['ids']
-            arr = np.array([str(i) for i in ids]) if c.get('as_str') else np.array(ids, dtype=np.int64)
-            u = unwrap_objid(arr)
-            return {'ok': [[int(u[k][j]) for k in ('skyversion', 'rerun', 'run', 'camcol', 'firstfield', 'frame', 'id')]
-                           for j in range(len(ids))]}
-        if f == 'unspec':
-            ids = c['ids']
-            arr = np.array([str(i) for i in ids]) if c.get('as_str') else np.array(ids, dtype=np.uint64)
-            ui = unwrap_specobjid(arr, run2d_integer=True, specLineIndex=bool(c.get('index')))
-            us = unwrap_specobjid(arr, run2d_integer=False)
-            rows = []
-            for j in range(len(ids)):
-                m = re.fullmatch(r'v(-?\d+)_(-?\d+)_(-?\d+)', str(us.run2d[j]))
-                nmp = [int(g) for g in m.groups()] if m else [-999, -999, -999]
-                lk = 'index' if c.get('index') else 'line'
-                row_i = [int(ui.plate[j]), int(ui.fiber[j]), int(ui.mjd[j]), int(ui.run2d[j])] + nmp + [int(ui[lk][j])]
-                same = (int(us.plate[j]), int(us.fiber[j]), int(us.mjd[j]), int(us.line[j])) == \
-                    (row_i[0], row_i[1], row_i[2], row_i[7])
-                if not same:
-                    row_i.append(-1)  # string and integer modes disagree -> guaranteed mismatch
-                rows.append(row_i)
-            return {'ok': rows}
+            base = np.int64 if f == 'unobj' else np.uint64
+            if c.get('as_str'):
+                arr = np.array([str(i) for i in ids])
+            else:
+                arr = np.array(ids, dtype=base)
+                if c.get('layout') == 'bigendian':       # same values, non-native byte order
+                    arr = arr.astype(arr.dtype.newbyteorder('>'))
+                elif c.get('layout') == 'strided':       # same values, every other element of a larger buffer
+                    buf = np.zeros(2 * len(ids), dtype=base)
+                    buf[::2] = arr
+                    arr = buf[::2]
+            before = arr.copy()
+            out = {'ok': unwrap_rows(f, c, arr, len(ids))}
+            if not np.array_equal(arr, before):
+                out['inputs_modified'] = ['ids']
+            try:
+                again = unwrap_rows(f, c, arr, len(ids))
+                if again != out['ok']:
+                    out['repeat_differs'] = again[:3]
+            except Exception as e2:  # noqa: BLE001
+                out['repeat_differs'] = type(e2).__name__
+            return out
         if f in ('sweepobj', 'sweepspec'):
             i, lo, n, others = c['i'], c['lo'], c['n'], c['others']
             cols = [np.full(n, int(o), dtype=np.int64) for o in others]
